@@ -115,8 +115,17 @@ func (c *specCtx) tr(x *SExpr) Value {
 	case "cond":
 		cnd := c.boolTerm(x.Args[0])
 		a, b := c.tr(x.Args[1]), c.tr(x.Args[2])
+		if a.K == VNone {
+			a = uV(App("nilU", SU))
+		}
+		if b.K == VNone {
+			b = uV(App("nilU", SU))
+		}
 		if a.K == VBool {
 			return boolV(Ite(cnd, a.T, b.T))
+		}
+		if a.K == VU || b.K == VU {
+			return uV(Ite(cnd, c.e.box(a), c.e.box(b)))
 		}
 		return intV(Ite(cnd, a.T, b.T))
 	case "forall", "exists":
